@@ -2,9 +2,10 @@ import LeptosModel.Model.Store
 /-!
 # C16 — store writes notify exactly the fields on the written path
 
-Property theorems about `Model/Store` (see its header for the map to the Rust code).
+Property theorems about `Model/Store` (see its header for the map to the Rust code), which models /repo
+**after** fix-c16-1 (`FieldKeys::new`), fix-c16-2 (`AtIndex::writer`), fix-c16-3 (`track_field`).
 
-Paths of plain fields (root store, `Subfield` chains, `unwrap()`), any depth:
+Paths (root store, struct fields, `unwrap()`, elements by index, keyed fields), any depth:
 * `C16_notify_iff_related` — a write through `p` and a reader of `q` share a trigger iff `p`, `q` are prefix-related.
 * `C16_notify_closed_form`, `C16_root_first` — the notified list is `children` of every prefix from the root
   down, then `this(p)`: ordered by path length.
@@ -12,17 +13,21 @@ Paths of plain fields (root store, `Subfield` chains, `unwrap()`), any depth:
   any reader of a proper descendant of `a` (this is the property's order clause and more);
   the stronger reading "any two notified readers" fails (`C16_wake_order_all_pairs_false`,
   `C16_subscription_order_below_written_field`) — documented, not a finding.
+* `walk_plainChain` — every chain of `Subfield` / `AtIndex` / `KeyedSubfield` accessors notifies `notifySet` and
+  tracks `trackSet` of its path (the machine is the path model);
 * state machine (ordered subscriber sets, effects): `C16_run_subscribes`, `C16_write_wakes_iff_related`,
   `C16_sees_written_value` (with the lens laws `get_set_*`).
 
 `FieldKeys` (every history, every `FxHashMap` iteration order — `Reach`):
-* `C16_keys_stable_full` is false: `C16_keys_stable_full_false`, witness `C16_segment_collision_witness` (F-C16-1);
-* `C16_keys_stable_partial` (table created from ≤ 1 key), `C16_keys_stable_of_wf` (any well-formed table);
-* `C16_keys_boundary`: from ≥ 2 initial keys a violating history always exists — `≤ 1` is the exact class.
+* `C16_keys_stable` — **full**: for every initial key list a key that stays keeps its segment, live keys have
+  distinct segments, a freed segment is reused only after removal (`wf_new`, `C16_keys_stable_of_wf`).
 
-Witnesses (kernel `decide` on concrete machine histories) of the defects of the other accessors:
-`C16_index_write_wakes_cousin_witness` (F-C16-2), `C16_keyed_field_misses_root_witness`,
-`C16_at_keyed_misses_parent_witness`, `C16_at_index_misses_parent_witness` (F-C16-3),
+Regression (the code before the repairs, `…Old` definitions): `C16_segment_collision_witness`,
+`C16_keys_stable_old_false`, `C16_keys_stable_old_partial`, `C16_keys_boundary_old` (F-C16-1);
+`C16_index_write_wakes_cousin_witness` (F-C16-2); `C16_keyed_field_misses_root_witness`,
+`C16_at_keyed_misses_parent_witness`, `C16_at_index_misses_parent_witness` (F-C16-3).
+
+Witnesses (kernel `decide` on concrete machine histories) of the defects that remain:
 `C16_patch_keyed_by_index_witness` (F-C16-4), `C16_stale_keys_panic_witness` (F-C16-5),
 `C16_removed_key_reader_not_dropped_witness` (F-C16-6).
 -/
@@ -96,27 +101,16 @@ theorem mem_notifySet (p : Path) (t : Trig) :
 
 theorem mem_trackSet (q : Path) (t : Trig) :
     t ∈ trackSet q ↔ t = C q ∨ ∃ a, a <+: q ∧ t = T a := by
-  cases q with
-  | nil =>
-    simp only [trackSet, defaultTrack, List.mem_cons, List.not_mem_nil, or_false, List.prefix_nil]
-    constructor
-    · rintro (h | h)
-      · exact Or.inr ⟨[], rfl, h⟩
-      · exact Or.inl h
-    · rintro (h | ⟨a, rfl, h⟩)
-      · exact Or.inr h
-      · exact Or.inl h
-  | cons s r =>
-    simp only [trackSet, subfieldTrack, List.mem_append, mem_trackLoop, List.reverse_reverse,
-      List.mem_cons, List.not_mem_nil, or_false]
-    constructor
-    · rintro (⟨a, ha, rfl⟩ | h | h)
-      · exact Or.inr ⟨a, ha, rfl⟩
-      · exact Or.inr ⟨_, List.prefix_refl _, h⟩
-      · exact Or.inl h
-    · rintro (h | ⟨a, ha, rfl⟩)
-      · exact Or.inr (Or.inr h)
-      · exact Or.inl ⟨a, ha, rfl⟩
+  simp only [trackSet, subfieldTrack, List.mem_append, mem_trackLoop, List.reverse_reverse,
+    List.mem_cons, List.not_mem_nil, or_false]
+  constructor
+  · rintro (⟨a, ha, rfl⟩ | h | h)
+    · exact Or.inr ⟨a, ha, rfl⟩
+    · exact Or.inr ⟨_, List.prefix_refl _, h⟩
+    · exact Or.inl h
+  · rintro (h | ⟨a, ha, rfl⟩)
+    · exact Or.inr (Or.inr h)
+    · exact Or.inl ⟨a, ha, rfl⟩
 
 theorem C16_notify_iff_related (p q : Path) :
     (∃ t, t ∈ notifySet p ∧ t ∈ trackSet q) ↔ (p <+: q ∨ q <+: p) := by
@@ -564,9 +558,37 @@ theorem get_set_unrelated (v : Val) (p q : List Nat) (w : Val)
           · intro hp; exact h2 (List.prefix_cons_inj i |>.2 hp)
         · simp [hij]
 
-/-! ## 5. the walk along a chain of plain fields is the path model of §1 -/
+/-! ## 5. the walk along a chain of path accessors is the path model of §1
+
+Since fix-c16-2 and fix-c16-3 a struct field (`Subfield`, also `unwrap()`), an element by index
+(`AtIndex`) and a keyed field (`KeyedSubfield`) all notify `triggers_for_path` of their own path with
+the parent untracked, and all track `this` of every ancestor: they only differ in how the value is
+looked up. -/
+
+def Acc.isPlain : Acc → Bool
+  | .key _ => false
+  | _ => true
+
+/-- the path segment of a plain accessor -/
+def Acc.seg : Acc → Nat
+  | .fld i => i
+  | .idx i => i
+  | .kfld i => i
+  | .key k => k
+
+/-- the trigger path (and value position) of a chain of plain accessors -/
+def chainPath (c : Chain) : Path := c.map Acc.seg
 
 def fldChain (p : Path) : Chain := p.map Acc.fld
+
+theorem chainPath_fldChain (p : Path) : chainPath (fldChain p) = p := by
+  simp [chainPath, fldChain, Acc.seg, Function.comp_def]
+
+theorem isPlain_fldChain (p : Path) : ∀ a ∈ fldChain p, a.isPlain = true := by
+  intro a ha
+  simp only [fldChain, List.mem_map] at ha
+  obtain ⟨i, _, rfl⟩ := ha
+  rfl
 
 theorem get_append (v : Val) (a b : List Nat) :
     v.get (a ++ b) = (v.get a).bind (fun x => x.get b) := by
@@ -578,124 +600,134 @@ theorem get_append (v : Val) (a b : List Nat) :
     | none => rfl
     | some c => exact ih c
 
-def fldStep (st : St) (w : Walk) (i : Nat) : Walk :=
-  { w with tpath := w.tpath ++ [i], parent := w.tpath, vpos := w.vpos.map (· ++ [i]),
-           tr := w.un ++ triggersForPath (w.tpath ++ [i]), un := w.un,
-           absent := w.absent || (!w.oob && !childExists st.val w.vpos i), last := some (.fld i) }
+def plainStep (st : St) (w : Walk) (a : Acc) : Walk :=
+  { w with tpath := w.tpath ++ [a.seg], parent := w.tpath, vpos := w.vpos.map (· ++ [a.seg]),
+           tr := w.un ++ triggersForPath (w.tpath ++ [a.seg]), un := w.un,
+           absent := w.absent || (!w.oob && !childExists st.val w.vpos a.seg), last := some a }
 
-theorem stepAcc_fld (st : St) (w : Walk) (i : Nat) : stepAcc (st, w) (.fld i) = (st, fldStep st w i) := rfl
+theorem stepAcc_plain (st : St) (w : Walk) (a : Acc) (h : a.isPlain = true) :
+    stepAcc (st, w) a = (st, plainStep st w a) := by
+  cases a with
+  | fld i => rfl
+  | idx i => rfl
+  | kfld i => rfl
+  | key k => cases h
 
-/-- the walk along a chain of plain fields, started from any walk state `w` that has not passed a key step -/
-theorem foldl_fld (st : St) (p : Path) : ∀ (w : Walk) (vp : Path),
-    w.un = [] → w.oob = false → w.vpos = some vp →
-    ((p.map Acc.fld).foldl stepAcc (st, w)).1 = st ∧
-    ((p.map Acc.fld).foldl stepAcc (st, w)).2.un = [] ∧
-    ((p.map Acc.fld).foldl stepAcc (st, w)).2.oob = false ∧
-    ((p.map Acc.fld).foldl stepAcc (st, w)).2.tpath = w.tpath ++ p ∧
-    ((p.map Acc.fld).foldl stepAcc (st, w)).2.vpos = some (vp ++ p) ∧
-    (p ≠ [] → ((p.map Acc.fld).foldl stepAcc (st, w)).2.tr = triggersForPath (w.tpath ++ p) ∧
-              (∃ i, ((p.map Acc.fld).foldl stepAcc (st, w)).2.last = some (.fld i))) ∧
-    ((p.map Acc.fld).foldl stepAcc (st, w)).2.absent
-      = (w.absent || (!p.isEmpty && (st.val.get (vp ++ p)).isNone)) := by
-  induction p with
+/-- the walk along a chain of plain accessors, started from any walk state `w` that has not passed a key step -/
+theorem foldl_plain (st : St) (c : Chain) : ∀ (w : Walk) (vp : Path),
+    (∀ a ∈ c, a.isPlain = true) → w.un = [] → w.oob = false → w.vpos = some vp →
+    (c.foldl stepAcc (st, w)).1 = st ∧
+    (c.foldl stepAcc (st, w)).2.un = [] ∧
+    (c.foldl stepAcc (st, w)).2.oob = false ∧
+    (c.foldl stepAcc (st, w)).2.tpath = w.tpath ++ chainPath c ∧
+    (c.foldl stepAcc (st, w)).2.vpos = some (vp ++ chainPath c) ∧
+    (c ≠ [] → (c.foldl stepAcc (st, w)).2.tr = triggersForPath (w.tpath ++ chainPath c) ∧
+              (c.foldl stepAcc (st, w)).2.last = c.getLast?) ∧
+    (c.foldl stepAcc (st, w)).2.absent
+      = (w.absent || (!c.isEmpty && (st.val.get (vp ++ chainPath c)).isNone)) := by
+  induction c with
   | nil =>
-    intro w vp h1 h2 h3
-    simp [h1, h2, h3]
-  | cons i p ih =>
-    intro w vp h1 h2 h3
-    simp only [List.map_cons, List.foldl_cons, stepAcc_fld]
-    have hv : (fldStep st w i).vpos = some (vp ++ [i]) := by simp [fldStep, h3]
-    obtain ⟨a1, a2, a3, a4, a5, a6, a8⟩ := ih (fldStep st w i) (vp ++ [i]) h1 h2 hv
+    intro w vp _ h1 h2 h3
+    simp [h1, h2, h3, chainPath]
+  | cons a c ih =>
+    intro w vp hpl h1 h2 h3
+    have ha : a.isPlain = true := hpl a (by simp)
+    have hc : ∀ b ∈ c, b.isPlain = true := fun b hb => hpl b (by simp [hb])
+    simp only [List.foldl_cons, stepAcc_plain st w a ha]
+    have hv : (plainStep st w a).vpos = some (vp ++ [a.seg]) := by simp [plainStep, h3]
+    obtain ⟨a1, a2, a3, a4, a5, a6, a8⟩ := ih (plainStep st w a) (vp ++ [a.seg]) hc h1 h2 hv
     refine ⟨a1, a2, a3, ?_, ?_, ?_, ?_⟩
-    · rw [a4]; simp [fldStep]
-    · rw [a5]; simp
+    · rw [a4]; simp [plainStep, chainPath]
+    · rw [a5]; simp [chainPath]
     · intro _
-      by_cases hp : p = []
+      by_cases hp : c = []
       · subst hp
-        simp [fldStep, h1]
+        simp [plainStep, h1, chainPath]
       · obtain ⟨b1, b2⟩ := a6 hp
-        refine ⟨?_, b2⟩
-        rw [b1]; simp [fldStep]
+        refine ⟨?_, ?_⟩
+        · rw [b1]; simp [plainStep, chainPath]
+        · rw [b2]
+          cases c with
+          | nil => exact absurd rfl hp
+          | cons b r => simp [List.getLast?_cons_cons]
     · rw [a8]
-      simp only [fldStep, h2, h3, childExists, Bool.not_false, Bool.true_and, List.isEmpty_cons,
-        List.append_assoc, List.cons_append, List.nil_append]
-      cases hg : st.val.get (vp ++ [i]) with
+      simp only [plainStep, h2, h3, childExists, Bool.not_false, Bool.true_and, List.isEmpty_cons,
+        List.append_assoc, List.cons_append, List.nil_append, chainPath, List.map_cons]
+      cases hg : st.val.get (vp ++ [a.seg]) with
       | none =>
-        have : st.val.get (vp ++ i :: p) = none := by
-          have := get_append st.val (vp ++ [i]) p
+        have : st.val.get (vp ++ a.seg :: List.map Acc.seg c) = none := by
+          have := get_append st.val (vp ++ [a.seg]) (List.map Acc.seg c)
           simp only [List.append_assoc, List.cons_append, List.nil_append] at this
           rw [this, hg]; rfl
         simp [this]
       | some x =>
-        cases p with
+        cases c with
         | nil => simp [hg]
         | cons j q => simp
 
-theorem walk_fldChain (st : St) (p : Path) :
-    (walk st (fldChain p)).1 = st ∧
-    (walk st (fldChain p)).2.tpath = p ∧
-    (walk st (fldChain p)).2.vpos = some p ∧
-    (walk st (fldChain p)).2.oob = false ∧
-    (walk st (fldChain p)).2.un = [] ∧
-    (walk st (fldChain p)).2.absent = (st.val.get p).isNone ∧
-    (walk st (fldChain p)).2.trackList = trackSet p ∧
-    (p ≠ [] → (walk st (fldChain p)).2.tr = notifySet p) ∧
-    (p = [] → (walk st (fldChain p)).2.last = none) ∧
-    (p ≠ [] → ∃ i, (walk st (fldChain p)).2.last = some (.fld i)) := by
-  obtain ⟨a1, a2, a3, a4, a5, a6, a8⟩ := foldl_fld st p Walk.root [] rfl rfl rfl
+/-- **the walk along any chain of plain accessors is the path model**: what its write guard notifies is
+`notifySet` of its path, what its reader tracks is `trackSet` of its path -/
+theorem walk_plainChain (st : St) (c : Chain) (hpl : ∀ a ∈ c, a.isPlain = true) :
+    (walk st c).1 = st ∧
+    (walk st c).2.tpath = chainPath c ∧
+    (walk st c).2.vpos = some (chainPath c) ∧
+    (walk st c).2.oob = false ∧
+    (walk st c).2.un = [] ∧
+    (walk st c).2.absent = (st.val.get (chainPath c)).isNone ∧
+    (walk st c).2.trackList = trackSet (chainPath c) ∧
+    (c ≠ [] → (walk st c).2.tr = notifySet (chainPath c)) ∧
+    (walk st c).2.last = c.getLast? := by
+  obtain ⟨a1, a2, a3, a4, a5, a6, a8⟩ := foldl_plain st c Walk.root [] hpl rfl rfl rfl
   have e1 : Walk.root.tpath = [] := rfl
   have e2 : Walk.root.absent = false := rfl
   rw [e1] at a4 a6
   rw [e2] at a8
   simp only [List.nil_append] at a4 a5 a6 a8
-  unfold walk fldChain
-  refine ⟨a1, a4, a5, a3, a2, ?_, ?_, ?_, ?_, ?_⟩
+  unfold walk
+  refine ⟨a1, a4, a5, a3, a2, ?_, ?_, ?_, ?_⟩
   · rw [a8]
-    cases p with
-    | nil => simp [Val.get]
+    cases c with
+    | nil => simp [Val.get, chainPath]
     | cons i q => simp
-  · cases p with
-    | nil => rfl
-    | cons i q =>
-      obtain ⟨_, j, hj⟩ := a6 (by simp)
-      unfold Walk.trackList
-      rw [hj, a4]
-      rfl
+  · unfold Walk.trackList trackSet
+    rw [a4]
   · intro hp
-    cases p with
-    | nil => exact absurd rfl hp
-    | cons i q => simp only [notifySet]; exact (a6 hp).1
-  · intro hp; subst hp; rfl
-  · intro hp; exact (a6 hp).2
+    have hne : chainPath c ≠ [] := by
+      cases c with
+      | nil => exact absurd rfl hp
+      | cons a r => simp [chainPath]
+    cases hcp : chainPath c with
+    | nil => exact absurd hcp hne
+    | cons i q =>
+      simp only [notifySet]
+      rw [← hcp]
+      exact (a6 hp).1
+  · cases c with
+    | nil => rfl
+    | cons a r => exact (a6 (by simp)).2
+
+theorem walk_fldChain_path (st : St) (p : Path) :
+    (walk st (fldChain p)).2.tpath = p ∧ (walk st (fldChain p)).2.trackList = trackSet p ∧
+    (p ≠ [] → (walk st (fldChain p)).2.tr = notifySet p) := by
+  obtain ⟨_, a2, _, _, _, _, a7, a8, _⟩ := walk_plainChain st (fldChain p) (isPlain_fldChain p)
+  rw [chainPath_fldChain] at a2 a7 a8
+  refine ⟨a2, a7, ?_⟩
+  intro hp
+  apply a8
+  cases p with
+  | nil => exact absurd rfl hp
+  | cons i r => simp [fldChain]
 
 /-! ## 6. `FieldKeys`: every history, every hash order -/
 
-/-- the tables reachable from `FieldKeys::new(ks0)`: any number of `update`s, each with an arbitrary
+/-- the tables reachable from an initial table `fk0`: any number of `update`s, each with an arbitrary
 `new_keys` map in an arbitrary iteration order (`upd`), and with the table's own `FxHashMap` in an
 arbitrary iteration order (`perm`) -/
-inductive Reach (ks0 : List Nat) : FieldKeys → Prop
-  | init : Reach ks0 (FieldKeys.new ks0)
+inductive Reach (fk0 : FieldKeys) : FieldKeys → Prop
+  | init : Reach fk0 fk0
   | perm {fk : FieldKeys} {keys' : List KeyEntry} :
-      Reach ks0 fk → keys'.Perm fk.keys → Reach ks0 { fk with keys := keys' }
-  | upd {fk : FieldKeys} (nk : List (Nat × Nat)) : Reach ks0 fk → Reach ks0 (fk.updateEntries nk)
-
-/-- **full statement** (what the property asks): for every initial key list and every history, an
-`update` keeps the segment of every key that stays, keeps live keys on distinct segments and gives
-a new key no segment that a still-live key had. -/
-def C16_keys_stable_full : Prop :=
-  ∀ (ks0 : List Nat) (fk : FieldKeys) (nk : List (Nat × Nat)),
-    ks0.Nodup → Reach ks0 fk → Stable fk (fk.updateEntries nk)
-
-/-- F-C16-1: `[10,11,12]`, then `update([10,11,12,13])`: key 13 gets segment 1, the segment of key 11 -/
-theorem C16_segment_collision_witness :
-    ((FieldKeys.new [10, 11, 12]).update [10, 11, 12, 13]).seg 13 = some 1 ∧
-    ((FieldKeys.new [10, 11, 12]).update [10, 11, 12, 13]).seg 11 = some 1 := by decide
-
-theorem C16_keys_stable_full_false : ¬ C16_keys_stable_full := by
-  intro h
-  have := (h [10, 11, 12] (FieldKeys.new [10, 11, 12]) (enumKeys [10, 11, 12, 13] 0 [])
-    (by decide) Reach.init).2.1 13 11 1 (by decide) (by decide)
-  revert this; decide
+      Reach fk0 fk → keys'.Perm fk.keys → Reach fk0 { fk with keys := keys' }
+  | upd {fk : FieldKeys} (nk : List (Nat × Nat)) : Reach fk0 fk → Reach fk0 (fk.updateEntries nk)
 
 theorem wf_perm (fk : FieldKeys) (keys' : List KeyEntry) (h : fk.wf) (hp : keys'.Perm fk.keys) :
     FieldKeys.wf { fk with keys := keys' } := by
@@ -707,32 +739,172 @@ theorem wf_perm (fk : FieldKeys) (keys' : List KeyEntry) (h : fk.wf) (hp : keys'
   exact h2 s (hs.mem_iff.1 hs')
 
 /-- well-formed tables stay well-formed along every history -/
-theorem reach_wf (ks0 : List Nat) (h0 : (FieldKeys.new ks0).wf) (fk : FieldKeys) (h : Reach ks0 fk) :
-    fk.wf := by
+theorem reach_wf (fk0 : FieldKeys) (h0 : fk0.wf) (fk : FieldKeys) (h : Reach fk0 fk) : fk.wf := by
   induction h with
   | init => exact h0
   | perm _ hp ih => exact wf_perm _ _ ih hp
   | upd nk _ ih => exact updateEntries_wf _ nk ih
 
-theorem wf_new_of_length_le_one (ks0 : List Nat) (h : ks0.length ≤ 1) : (FieldKeys.new ks0).wf := by
-  match ks0, h with
-  | [], _ => decide
-  | [k], _ =>
-    simp [FieldKeys.new, newGo, kvInsert, FieldKeys.wf, FieldKeys.segs, FieldKeys.live]
+/-! ### `FieldKeys::new` (after fix-c16-1) creates a well-formed table, whatever the key list -/
 
-/-- **partial**: stability holds from any well-formed table (decidable hypothesis) … -/
+theorem kvInsert_keys_sub (acc : List KeyEntry) (k s i x : Nat)
+    (h : x ∈ (kvInsert acc k s i).map (·.1)) : x ∈ acc.map (·.1) ∨ x = k := by
+  induction acc with
+  | nil => simp [kvInsert] at h; exact Or.inr h
+  | cons e rest ih =>
+    obtain ⟨k', e'⟩ := e
+    simp only [kvInsert] at h
+    split at h
+    · next hk =>
+      simp only [List.map_cons, List.mem_cons] at h ⊢
+      rcases h with h | h
+      · exact Or.inr h
+      · exact Or.inl (Or.inr h)
+    · simp only [List.map_cons, List.mem_cons] at h ⊢
+      rcases h with h | h
+      · exact Or.inl (Or.inl h)
+      · rcases ih h with h | h
+        · exact Or.inl (Or.inr h)
+        · exact Or.inr h
+
+theorem kvInsert_segs_sub (acc : List KeyEntry) (k s i x : Nat)
+    (h : x ∈ (kvInsert acc k s i).map (·.2.1)) : x ∈ acc.map (·.2.1) ∨ x = s := by
+  induction acc with
+  | nil => simp [kvInsert] at h; exact Or.inr h
+  | cons e rest ih =>
+    obtain ⟨k', e'⟩ := e
+    simp only [kvInsert] at h
+    split at h
+    · simp only [List.map_cons, List.mem_cons] at h ⊢
+      rcases h with h | h
+      · exact Or.inr h
+      · exact Or.inl (Or.inr h)
+    · simp only [List.map_cons, List.mem_cons] at h ⊢
+      rcases h with h | h
+      · exact Or.inl (Or.inl h)
+      · rcases ih h with h | h
+        · exact Or.inl (Or.inr h)
+        · exact Or.inr h
+
+theorem kvInsert_keys_nodup (acc : List KeyEntry) (k s i : Nat) (h : (acc.map (·.1)).Nodup) :
+    ((kvInsert acc k s i).map (·.1)).Nodup := by
+  induction acc with
+  | nil => simp [kvInsert]
+  | cons e rest ih =>
+    obtain ⟨k', e'⟩ := e
+    simp only [List.map_cons, List.nodup_cons] at h
+    simp only [kvInsert]
+    split
+    · next hk => subst hk; simpa using h
+    · next hk =>
+      simp only [List.map_cons, List.nodup_cons]
+      refine ⟨?_, ih h.2⟩
+      intro hm
+      rcases kvInsert_keys_sub rest k s i k' hm with h' | h'
+      · exact h.1 h'
+      · exact hk h'
+
+theorem kvInsert_segs_nodup (acc : List KeyEntry) (k s i : Nat) (h : (acc.map (·.2.1)).Nodup)
+    (hs : s ∉ acc.map (·.2.1)) : ((kvInsert acc k s i).map (·.2.1)).Nodup := by
+  induction acc with
+  | nil => simp [kvInsert]
+  | cons e rest ih =>
+    obtain ⟨k', s', i'⟩ := e
+    simp only [List.map_cons, List.nodup_cons, List.mem_cons, not_or] at h hs
+    simp only [kvInsert]
+    split
+    · simp only [List.map_cons, List.nodup_cons]
+      exact ⟨hs.2, h.2⟩
+    · simp only [List.map_cons, List.nodup_cons]
+      refine ⟨?_, ih h.2 hs.2⟩
+      intro hm
+      rcases kvInsert_segs_sub rest k s i s' hm with h' | h'
+      · exact h.1 h'
+      · exact hs.1 h'.symm
+
+theorem newGo_inv (ks : List Nat) : ∀ (i : Nat) (acc : List KeyEntry),
+    (acc.map (·.1)).Nodup → (acc.map (·.2.1)).Nodup → (∀ s ∈ acc.map (·.2.1), s < i) →
+    ((newGo ks i acc).map (·.1)).Nodup ∧ ((newGo ks i acc).map (·.2.1)).Nodup ∧
+    ∀ s ∈ (newGo ks i acc).map (·.2.1), s < i + ks.length := by
+  induction ks with
+  | nil =>
+    intro i acc h1 h2 h3
+    simp only [newGo]
+    exact ⟨h1, h2, fun s hs => by have := h3 s hs; omega⟩
+  | cons k r ih =>
+    intro i acc h1 h2 h3
+    have hfresh : i ∉ acc.map (·.2.1) := fun hm => Nat.lt_irrefl _ (h3 i hm)
+    have := ih (i + 1) (kvInsert acc k i i) (kvInsert_keys_nodup acc k i i h1)
+      (kvInsert_segs_nodup acc k i i h2 hfresh)
+      (by
+        intro s hs
+        rcases kvInsert_segs_sub acc k i i s hs with h | h
+        · have := h3 s h; omega
+        · omega)
+    simp only [newGo, List.length_cons]
+    refine ⟨this.1, this.2.1, ?_⟩
+    intro s hs
+    have := this.2.2 s hs
+    omega
+
+/-- after fix-c16-1 every table made by `FieldKeys::new` is well-formed (for any key list, duplicates included) -/
+theorem wf_new (ks : List Nat) : (FieldKeys.new ks).wf := by
+  obtain ⟨h1, h2, h3⟩ := newGo_inv ks 0 [] (by simp) (by simp) (by simp)
+  refine ⟨?_, ?_, ?_⟩
+  · simpa [FieldKeys.new, FieldKeys.segs] using h2
+  · intro s hs
+    simp only [FieldKeys.new, FieldKeys.segs, List.append_nil] at hs
+    have := h3 s hs
+    simp only [FieldKeys.new]
+    omega
+  · simpa [FieldKeys.new, FieldKeys.live] using h1
+
+/-- stability holds from any well-formed table (decidable hypothesis), and well-formedness is kept -/
 theorem C16_keys_stable_of_wf (fk : FieldKeys) (nk : List (Nat × Nat)) (h : fk.wf) :
     Stable fk (fk.updateEntries nk) ∧ (fk.updateEntries nk).wf :=
   ⟨stable_of_wf fk nk h, updateEntries_wf fk nk h⟩
 
-/-- … in particular for every history of a keyed collection whose table was created from at most one
-key (e.g. a collection that starts empty), whatever the hash orders. The negation of the hypothesis
-is the known-finding class `segment-collision`. -/
-theorem C16_keys_stable_partial (ks0 : List Nat) (fk : FieldKeys) (nk : List (Nat × Nat))
-    (h : ks0.length ≤ 1) (hr : Reach ks0 fk) : Stable fk (fk.updateEntries nk) :=
-  stable_of_wf fk nk (reach_wf ks0 (wf_new_of_length_le_one ks0 h) fk hr)
+/-- **keyed items keep their identity (full statement, holds since fix-c16-1)**: for every initial key
+list and every history of `update`s in every hash order, an `update` keeps the segment of every key
+that stays, keeps live keys on distinct segments, and gives a new key no segment that a still-live
+key had. -/
+theorem C16_keys_stable (ks0 : List Nat) (fk : FieldKeys) (nk : List (Nat × Nat))
+    (hr : Reach (FieldKeys.new ks0) fk) : Stable fk (fk.updateEntries nk) :=
+  stable_of_wf fk nk (reach_wf _ (wf_new ks0) fk hr)
 
-/-! ### the boundary of `C16_keys_stable_partial` -/
+/-! ### regression: the table before fix-c16-1 -/
+
+/-- the statement of `C16_keys_stable` for the old `FieldKeys::new` -/
+def C16_keys_stable_old : Prop :=
+  ∀ (ks0 : List Nat) (fk : FieldKeys) (nk : List (Nat × Nat)),
+    ks0.Nodup → Reach (FieldKeys.newOld ks0) fk → Stable fk (fk.updateEntries nk)
+
+/-- F-C16-1 (repaired): `[10,11,12]`, then `update([10,11,12,13])`: key 13 used to get segment 1, the
+segment of key 11; now it gets a segment of its own -/
+theorem C16_segment_collision_witness :
+    ((FieldKeys.newOld [10, 11, 12]).update [10, 11, 12, 13]).seg 13 = some 1 ∧
+    ((FieldKeys.newOld [10, 11, 12]).update [10, 11, 12, 13]).seg 11 = some 1 ∧
+    ((FieldKeys.new [10, 11, 12]).update [10, 11, 12, 13]).seg 13 = some 4 ∧
+    ((FieldKeys.new [10, 11, 12]).update [10, 11, 12, 13]).seg 11 = some 1 := by decide
+
+theorem C16_keys_stable_old_false : ¬ C16_keys_stable_old := by
+  intro h
+  have := (h [10, 11, 12] (FieldKeys.newOld [10, 11, 12]) (enumKeys [10, 11, 12, 13] 0 [])
+    (by decide) Reach.init).2.1 13 11 1 (by decide) (by decide)
+  revert this; decide
+
+theorem wf_newOld_of_length_le_one (ks0 : List Nat) (h : ks0.length ≤ 1) : (FieldKeys.newOld ks0).wf := by
+  match ks0, h with
+  | [], _ => decide
+  | [k], _ =>
+    simp [FieldKeys.newOld, newGo, kvInsert, FieldKeys.wf, FieldKeys.segs, FieldKeys.live]
+
+/-- what held before the repair: stability for tables created from at most one key -/
+theorem C16_keys_stable_old_partial (ks0 : List Nat) (fk : FieldKeys) (nk : List (Nat × Nat))
+    (h : ks0.length ≤ 1) (hr : Reach (FieldKeys.newOld ks0) fk) : Stable fk (fk.updateEntries nk) :=
+  stable_of_wf fk nk (reach_wf _ (wf_newOld_of_length_le_one ks0 h) fk hr)
+
+/-! ### … and that was the exact boundary of the old code -/
 
 def enumFrom : Nat → List Nat → List KeyEntry
   | _, [] => []
@@ -823,18 +995,18 @@ theorem sum_fresh (ks : List Nat) : ks.sum + 1 ∉ ks := by
   have := this ks _ h
   omega
 
-/-- **the boundary**: as soon as the table is created from two or more keys there is a history (one
-`update` that adds one fresh key) after which two live keys share a segment. With
-`C16_keys_stable_partial` this makes `ks0.length ≤ 1` the exact class in which stability holds for all
-histories. -/
-theorem C16_keys_boundary (ks0 : List Nat) (hn : ks0.Nodup) (h2 : 2 ≤ ks0.length) :
-    ∃ (fk : FieldKeys) (nk : List (Nat × Nat)), Reach ks0 fk ∧ ¬ Stable fk (fk.updateEntries nk) := by
+/-- before fix-c16-1: as soon as the table was created from two or more keys there was a history (one
+`update` that adds one fresh key) after which two live keys share a segment; with
+`C16_keys_stable_old_partial`, `ks0.length ≤ 1` was the exact class in which the old code was stable. -/
+theorem C16_keys_boundary_old (ks0 : List Nat) (hn : ks0.Nodup) (h2 : 2 ≤ ks0.length) :
+    ∃ (fk : FieldKeys) (nk : List (Nat × Nat)),
+      Reach (FieldKeys.newOld ks0) fk ∧ ¬ Stable fk (fk.updateEntries nk) := by
   match ks0, hn, h2 with
   | a :: b :: rest, hn, _ =>
     let f := (a :: b :: rest).sum + 1
     have hf : f ∉ (a :: b :: rest) := sum_fresh _
     let nk : List (Nat × Nat) := (f, 0) :: (a :: b :: rest).map (fun k => (k, 0))
-    refine ⟨FieldKeys.new (a :: b :: rest), nk, Reach.init, ?_⟩
+    refine ⟨FieldKeys.newOld (a :: b :: rest), nk, Reach.init, ?_⟩
     intro hst
     have hK : newGo (a :: b :: rest) 0 [] = enumFrom 0 (a :: b :: rest) := by
       have := newGo_eq (a :: b :: rest) 0 [] (by simpa using hn)
@@ -842,12 +1014,12 @@ theorem C16_keys_boundary (ks0 : List Nat) (hn : ks0.Nodup) (h2 : 2 ≤ ks0.leng
     have hab : a ≠ b := by
       intro h; subst h; simp at hn
     -- key b has segment 1 before …
-    have hsb : (FieldKeys.new (a :: b :: rest)).seg b = some 1 := by
+    have hsb : (FieldKeys.newOld (a :: b :: rest)).seg b = some 1 := by
       rw [get_eq_find]
-      simp only [FieldKeys.new, hK, enumFrom]
+      simp only [FieldKeys.newOld, hK, enumFrom]
       simp [hab]
-    have hlive0 : (FieldKeys.new (a :: b :: rest)).live = a :: b :: rest := by
-      simp only [FieldKeys.live, FieldKeys.new, hK]
+    have hlive0 : (FieldKeys.newOld (a :: b :: rest)).live = a :: b :: rest := by
+      simp only [FieldKeys.live, FieldKeys.newOld, hK]
       exact enumFrom_live _ 0
     have hnkmem : ∀ k ∈ (a :: b :: rest), k ∈ nk.map (·.1) := by
       intro k hk
@@ -861,7 +1033,7 @@ theorem C16_keys_boundary (ks0 : List Nat) (hn : ks0.Nodup) (h2 : 2 ≤ ks0.leng
         simp only [List.mem_map, Function.comp]
         exact ⟨k, h, rfl⟩
     -- the retain pass keeps every entry and frees nothing
-    have hkept := retainGo_all_kept (FieldKeys.new (a :: b :: rest)).keys nk
+    have hkept := retainGo_all_kept (FieldKeys.newOld (a :: b :: rest)).keys nk
       (by
         intro e he
         apply lookupIdx_isSome_of_mem
@@ -869,19 +1041,19 @@ theorem C16_keys_boundary (ks0 : List Nat) (hn : ks0.Nodup) (h2 : 2 ≤ ks0.leng
         rw [← hlive0]
         exact List.mem_map.2 ⟨e, he, rfl⟩) []
     -- so the fresh key gets `current_key + 1 = 1`
-    have hupd : ((FieldKeys.new (a :: b :: rest)).updateEntries nk).keys =
-        (retainGo (FieldKeys.new (a :: b :: rest)).keys nk []).1 ++ [(f, 1, 0)] := by
-      have hnotin : ¬ ((retainGo (FieldKeys.new (a :: b :: rest)).keys nk []).1.any (·.1 = f)) = true := by
+    have hupd : ((FieldKeys.newOld (a :: b :: rest)).updateEntries nk).keys =
+        (retainGo (FieldKeys.newOld (a :: b :: rest)).keys nk []).1 ++ [(f, 1, 0)] := by
+      have hnotin : ¬ ((retainGo (FieldKeys.newOld (a :: b :: rest)).keys nk []).1.any (·.1 = f)) = true := by
         simp only [List.any_eq_true, decide_eq_true_eq, not_exists, not_and]
         intro x hx hxf
-        have : x.1 ∈ (retainGo (FieldKeys.new (a :: b :: rest)).keys nk []).1.map (·.1) :=
+        have : x.1 ∈ (retainGo (FieldKeys.newOld (a :: b :: rest)).keys nk []).1.map (·.1) :=
           List.mem_map.2 ⟨x, hx, rfl⟩
         rw [hkept.2] at this
-        have hl : x.1 ∈ (FieldKeys.new (a :: b :: rest)).live := this
+        have hl : x.1 ∈ (FieldKeys.newOld (a :: b :: rest)).live := this
         rw [hlive0, hxf] at hl
         exact hf hl
-      have hsp : (FieldKeys.new (a :: b :: rest)).spare = [] := rfl
-      have hcur : (FieldKeys.new (a :: b :: rest)).current = 0 := rfl
+      have hsp : (FieldKeys.newOld (a :: b :: rest)).spare = [] := rfl
+      have hcur : (FieldKeys.newOld (a :: b :: rest)).current = 0 := rfl
       unfold FieldKeys.updateEntries
       simp only [nk, addNew, hsp, hkept.1]
       simp only [nk] at hnotin
@@ -895,25 +1067,25 @@ theorem C16_keys_boundary (ks0 : List Nat) (hn : ks0.Nodup) (h2 : 2 ≤ ks0.leng
       have := hkept.2
       simp only [nk] at this
       rw [this]
-      have : k ∈ (FieldKeys.new (a :: b :: rest)).live := by rw [hlive0]; exact hk
+      have : k ∈ (FieldKeys.newOld (a :: b :: rest)).live := by rw [hlive0]; exact hk
       exact this
-    have hsf : ((FieldKeys.new (a :: b :: rest)).updateEntries nk).seg f = some 1 := by
+    have hsf : ((FieldKeys.newOld (a :: b :: rest)).updateEntries nk).seg f = some 1 := by
       rw [get_eq_find, hupd, List.find?_append]
-      have : (retainGo (FieldKeys.new (a :: b :: rest)).keys nk []).1.find? (·.1 = f) = none := by
+      have : (retainGo (FieldKeys.newOld (a :: b :: rest)).keys nk []).1.find? (·.1 = f) = none := by
         simp only [List.find?_eq_none, decide_eq_true_eq]
         intro x hx hxf
-        have : x.1 ∈ (retainGo (FieldKeys.new (a :: b :: rest)).keys nk []).1.map (·.1) :=
+        have : x.1 ∈ (retainGo (FieldKeys.newOld (a :: b :: rest)).keys nk []).1.map (·.1) :=
           List.mem_map.2 ⟨x, hx, rfl⟩
         rw [hkept.2] at this
-        have hl : x.1 ∈ (FieldKeys.new (a :: b :: rest)).live := this
+        have hl : x.1 ∈ (FieldKeys.newOld (a :: b :: rest)).live := this
         rw [hlive0, hxf] at hl
         exact hf hl
       simp [this]
-    have hbl : b ∈ ((FieldKeys.new (a :: b :: rest)).updateEntries nk).live := by
+    have hbl : b ∈ ((FieldKeys.newOld (a :: b :: rest)).updateEntries nk).live := by
       simp only [FieldKeys.live, hupd, List.map_append, List.mem_append]
       left
       rw [hkept.2]
-      have : b ∈ (FieldKeys.new (a :: b :: rest)).live := by rw [hlive0]; simp
+      have : b ∈ (FieldKeys.newOld (a :: b :: rest)).live := by rw [hlive0]; simp
       exact this
     have hsb' := hst.1 b 1 hsb hbl
     have := hst.2.1 b f 1 hsb' hsf
@@ -1085,35 +1257,40 @@ def seenAt (v : Val) (q : Path) : Seen :=
   | some x => .val x
   | none => .absent
 
-theorem read_fldChain (st : St) (q : Path) :
-    (walk st (fldChain q)).2.read st.val = seenAt st.val q := by
-  obtain ⟨_, _, h3, h4, _, h6, _⟩ := walk_fldChain st q
+theorem read_plainChain (st : St) (c : Chain) (hpl : ∀ a ∈ c, a.isPlain = true) :
+    (walk st c).2.read st.val = seenAt st.val (chainPath c) := by
+  obtain ⟨_, _, h3, h4, _, h6, _⟩ := walk_plainChain st c hpl
   unfold Walk.read seenAt
   rw [h6, h3, h4]
-  cases hg : st.val.get q with
+  cases hg : st.val.get (chainPath c) with
   | none => simp
   | some x => simp [hg]
 
-/-- one run of a reader of the plain field `q`: it re-subscribes to exactly `trackSet q` and logs the
-current value of its field -/
-theorem runEff_fld (st : St) (e : Nat) (x : Eff) (q : Path)
-    (he : st.effs[e]? = some x) (hc : x.chain = fldChain q) (hi : x.iter = false) :
+/-- one run of a reader of the field addressed by a chain of plain accessors (struct fields, elements by
+index, keyed fields): it re-subscribes to exactly `trackSet` of its path and logs the current value -/
+theorem runEff_plain (st : St) (e : Nat) (x : Eff)
+    (he : st.effs[e]? = some x) (hpl : ∀ a ∈ x.chain, a.isPlain = true) (hi : x.iter = false) :
     runEff st e =
-      { st with subs := (trackSet q).foldl (fun m t => subscribe m e t) (unsubscribeAll st.subs e),
-                log := st.log ++ [(e, seenAt st.val q)] } := by
+      { st with subs := (trackSet (chainPath x.chain)).foldl (fun m t => subscribe m e t) (unsubscribeAll st.subs e),
+                log := st.log ++ [(e, seenAt st.val (chainPath x.chain))] } := by
   unfold runEff
-  simp only [he, hc, hi]
-  have w1 := walk_fldChain { st with subs := unsubscribeAll st.subs e } q
+  simp only [he, hi]
+  have w1 := walk_plainChain { st with subs := unsubscribeAll st.subs e } x.chain hpl
   obtain ⟨a1, _, _, _, _, _, a7, _⟩ := w1
   simp only [Bool.false_eq_true, if_false, a1, a7]
-  have hr := read_fldChain { st with subs := unsubscribeAll st.subs e } q
+  have hr := read_plainChain { st with subs := unsubscribeAll st.subs e } x.chain hpl
   simp only at hr
-  have hr' : (walk { st with subs := unsubscribeAll st.subs e } (fldChain q)).2.read st.val = seenAt st.val q := hr
+  have hr' : (walk { st with subs := unsubscribeAll st.subs e } x.chain).2.read st.val
+      = seenAt st.val (chainPath x.chain) := hr
   rw [hr']
   simp
   intro h
   unfold seenAt at h
-  cases hg : st.val.get q <;> simp [hg] at h
+  cases hg : st.val.get (chainPath x.chain) <;> simp [hg] at h
+
+end Leptos.Store
+
+namespace Leptos.Store
 
 /-- no `ImmediateEffect` is registered: notifications only set woken flags -/
 def NoImm (st : St) : Prop := ∀ x ∈ st.effs, x.imm = false
@@ -1262,19 +1439,37 @@ theorem notifyAll_noImm (ts : List Trig) : ∀ st : St, NoImm st →
       have := any_skip ts t st.subs e
       rw [Bool.or_assoc, this]
 
-theorem writeVia_fld (st : St) (p : Path) (f : Val → Val) (old : Val) (hg : st.val.get p = some old) :
-    writeVia st (fldChain p) f =
-      (notifyAll { st with val := st.val.set p (f old) } (notifySet p), .done) := by
-  obtain ⟨a1, a2, a3, a4, a5, a6, a7, a8, a9, a10⟩ := walk_fldChain st p
+def Acc.isFldIdx : Acc → Bool
+  | .fld _ => true
+  | .idx _ => true
+  | _ => false
+
+theorem isPlain_of_isFldIdx (c : Chain) (h : ∀ a ∈ c, a.isFldIdx = true) : ∀ a ∈ c, a.isPlain = true := by
+  intro a ha
+  have := h a ha
+  cases a <;> simp_all [Acc.isFldIdx, Acc.isPlain]
+
+/-- a write through a chain of struct fields / indexed elements (or through the store itself): the value
+is replaced and `notifySet` of the path is notified -/
+theorem writeVia_fldIdx (st : St) (c : Chain) (hc : ∀ a ∈ c, a.isFldIdx = true)
+    (f : Val → Val) (old : Val) (hg : st.val.get (chainPath c) = some old) :
+    writeVia st c f =
+      (notifyAll { st with val := st.val.set (chainPath c) (f old) } (notifySet (chainPath c)), .done) := by
+  obtain ⟨a1, a2, a3, a4, a5, a6, a7, a8, a9⟩ := walk_plainChain st c (isPlain_of_isFldIdx c hc)
   unfold writeVia
   simp only [a1, a6, hg, Option.isNone_some, Bool.false_eq_true, if_false, a3, a4]
-  cases p with
-  | nil =>
-    rw [a9 rfl]
-    rfl
-  | cons i r =>
-    obtain ⟨j, hj⟩ := a10 (by simp)
-    rw [hj, a8 (by simp)]
+  rw [a9]
+  rcases List.eq_nil_or_concat c with rfl | ⟨l, b, rfl⟩
+  · rfl
+  · have hb : b.isFldIdx = true := hc b (by simp)
+    have hne : l.concat b ≠ [] := by simp
+    simp only [List.concat_eq_append, List.getLast?_append, List.getLast?_singleton]
+    rw [← List.concat_eq_append, a8 hne]
+    cases b with
+    | fld i => rfl
+    | idx i => rfl
+    | kfld i => cases hb
+    | key k => cases hb
 
 theorem any_hit_iff (p q : Path) (m : List (Trig × List Nat)) (e : Nat)
     (hsub : ∀ t, (subsOf m t).contains e = true ↔ t ∈ trackSet q) :
@@ -1286,67 +1481,75 @@ theorem any_hit_iff (p q : Path) (m : List (Trig × List Nat)) (e : Nat)
   · rintro ⟨t, h1, h2⟩; exact ⟨t, h1, (hsub t).2 h2⟩
 
 /-- **a write wakes exactly the related readers** (state machine, effects on an executor): a reader `e`
-subscribed to `trackSet q` (what its last run left, `C16_run_subscribes`) is woken by `set` through the
-plain field `p` iff `p` and `q` are prefix-related; nothing else about it changes and the store holds
-the written value. -/
-theorem C16_write_wakes_iff_related (st : St) (p q : Path) (w : Val) (e : Nat) (x : Eff)
+subscribed to `trackSet q` (what its last run left, `C16_run_subscribes`) is woken by `set` through a
+chain `c` of struct fields and indexed elements iff the path of `c` and `q` are prefix-related; nothing
+else about it changes and the store holds the written value. -/
+theorem C16_write_wakes_iff_related (st : St) (c : Chain) (q : Path) (w : Val) (e : Nat) (x : Eff)
+    (hc : ∀ a ∈ c, a.isFldIdx = true)
     (hni : NoImm st) (he : st.effs[e]? = some x)
     (hsub : ∀ t, (subsOf st.subs t).contains e = true ↔ t ∈ trackSet q)
-    (hp : (st.val.get p).isSome) :
-    (stepOp st (.set (fldChain p) w)).1.val = st.val.set p w ∧
-    ∃ x', (stepOp st (.set (fldChain p) w)).1.effs[e]? = some x' ∧
+    (hp : (st.val.get (chainPath c)).isSome) :
+    (stepOp st (.set c w)).1.val = st.val.set (chainPath c) w ∧
+    ∃ x', (stepOp st (.set c w)).1.effs[e]? = some x' ∧
       x'.chain = x.chain ∧ x'.iter = x.iter ∧ x'.imm = x.imm ∧
-      (x'.woken = true ↔ (x.woken = true ∨ p <+: q ∨ q <+: p)) := by
-  cases hg : st.val.get p with
+      (x'.woken = true ↔ (x.woken = true ∨ chainPath c <+: q ∨ q <+: chainPath c)) := by
+  cases hg : st.val.get (chainPath c) with
   | none => simp [hg] at hp
   | some old =>
-    have hw := writeVia_fld { st with log := [] } p (fun _ => w) old hg
-    have hstep : stepOp st (.set (fldChain p) w) = writeVia { st with log := [] } (fldChain p) (fun _ => w) := rfl
+    have hw := writeVia_fldIdx { st with log := [] } c hc (fun _ => w) old hg
+    have hstep : stepOp st (.set c w) = writeVia { st with log := [] } c (fun _ => w) := rfl
     rw [hstep, hw]
-    have hni' : NoImm { st with log := [], val := st.val.set p w } := hni
-    obtain ⟨_, b2, _, _, _, b6⟩ := notifyAll_noImm (notifySet p) _ hni'
+    have hni' : NoImm { st with log := [], val := st.val.set (chainPath c) w } := hni
+    obtain ⟨_, b2, _, _, _, b6⟩ := notifyAll_noImm (notifySet (chainPath c)) _ hni'
     refine ⟨b2, ?_⟩
     have := b6 e
     simp only [he, Option.map_some] at this
     refine ⟨_, this, rfl, rfl, rfl, ?_⟩
     simp only [Bool.or_eq_true]
-    rw [any_hit_iff p q st.subs e hsub]
+    rw [any_hit_iff (chainPath c) q st.subs e hsub]
 
-/-- after its own run a reader of the plain field `q` is subscribed to exactly `trackSet q` -/
-theorem C16_run_subscribes (st : St) (e : Nat) (x : Eff) (q : Path)
-    (he : st.effs[e]? = some x) (hc : x.chain = fldChain q) (hi : x.iter = false) :
-    ∀ t, (subsOf (runEff st e).subs t).contains e = true ↔ t ∈ trackSet q := by
+/-- after its own run a reader of the field addressed by a chain of plain accessors is subscribed to
+exactly `trackSet` of its path -/
+theorem C16_run_subscribes (st : St) (e : Nat) (x : Eff)
+    (he : st.effs[e]? = some x) (hpl : ∀ a ∈ x.chain, a.isPlain = true) (hi : x.iter = false) :
+    ∀ t, (subsOf (runEff st e).subs t).contains e = true ↔ t ∈ trackSet (chainPath x.chain) := by
   intro t
-  rw [runEff_fld st e x q he hc hi]
+  rw [runEff_plain st e x he hpl hi]
   simp only [contains_foldl_subscribe, subsOf_unsubscribeAll]
   simp
 
-/-- **a notified reader sees the written value**: whenever a reader of the plain field `q` runs after
-`set p w`, it logs the value of its field in the written store; for `q` below `p` that is the
-corresponding part of `w`, for `q` above `p` the old value with `w` put in place, otherwise unchanged. -/
-theorem C16_sees_written_value (st : St) (p q : Path) (w : Val) (e : Nat) (x : Eff)
-    (hni : NoImm st) (he : st.effs[e]? = some x) (hc : x.chain = fldChain q) (hi : x.iter = false)
-    (hp : (st.val.get p).isSome) :
-    (runEff (stepOp st (.set (fldChain p) w)).1 e).log =
-        (stepOp st (.set (fldChain p) w)).1.log ++ [(e, seenAt (st.val.set p w) q)] ∧
+/-- **a notified reader sees the written value**: whenever a reader of the field at path `q` (any chain of
+plain accessors) runs after `set` through the path `p`, it logs the value of its field in the written
+store; for `q` below `p` that is the corresponding part of `w`, for `q` above `p` the old value with `w`
+put in place, otherwise unchanged. -/
+theorem C16_sees_written_value (st : St) (c : Chain) (w : Val) (e : Nat) (x : Eff)
+    (hc : ∀ a ∈ c, a.isFldIdx = true)
+    (hni : NoImm st) (he : st.effs[e]? = some x) (hpl : ∀ a ∈ x.chain, a.isPlain = true)
+    (hi : x.iter = false) (hp : (st.val.get (chainPath c)).isSome) :
+    let p := chainPath c
+    let q := chainPath x.chain
+    (runEff (stepOp st (.set c w)).1 e).log =
+        (stepOp st (.set c w)).1.log ++ [(e, seenAt (st.val.set p w) q)] ∧
     (∀ r, q = p ++ r → (st.val.set p w).get q = w.get r) ∧
     (∀ r u, p = q ++ r → st.val.get q = some u → (st.val.set p w).get q = some (u.set r w)) ∧
     (¬ p <+: q → ¬ q <+: p → (st.val.set p w).get q = st.val.get q) := by
+  intro p q
   refine ⟨?_, ?_, ?_, ?_⟩
-  · cases hg : st.val.get p with
+  · cases hg : st.val.get (chainPath c) with
     | none => simp [hg] at hp
     | some old =>
-      have hw := writeVia_fld { st with log := [] } p (fun _ => w) old hg
-      have hstep : stepOp st (.set (fldChain p) w) = writeVia { st with log := [] } (fldChain p) (fun _ => w) := rfl
-      have hni' : NoImm { st with log := [], val := st.val.set p w } := hni
-      obtain ⟨_, b2, _, _, _, b6⟩ := notifyAll_noImm (notifySet p) _ hni'
+      have hw := writeVia_fldIdx { st with log := [] } c hc (fun _ => w) old hg
+      have hstep : stepOp st (.set c w) = writeVia { st with log := [] } c (fun _ => w) := rfl
+      have hni' : NoImm { st with log := [], val := st.val.set (chainPath c) w } := hni
+      obtain ⟨_, b2, _, _, _, b6⟩ := notifyAll_noImm (notifySet (chainPath c)) _ hni'
       have h6 := b6 e
       simp only [he, Option.map_some] at h6
       rw [hstep, hw]
-      rw [runEff_fld _ e _ q h6 hc hi]
+      rw [runEff_plain _ e _ h6 hpl hi]
       simp only [b2]
-  · intro r hr; subst hr; exact get_set_append _ _ _ _ hp
-  · intro r u hr hu; subst hr; exact get_set_prefix _ _ _ _ _ hu
+      rfl
+  · intro r hr; rw [hr]; exact get_set_append _ _ _ _ hp
+  · intro r u hr hu; rw [hr]; exact get_set_prefix _ _ _ _ _ hu
   · intro h1 h2; exact get_set_unrelated _ _ _ _ h1 h2
 
 /-! ## 7. the state machine on concrete histories: witnesses of the other defects -/
@@ -1364,47 +1567,46 @@ def stRows : St := St.init (demoRoot (demoMid []) [] [] [rowV 10 1000, rowV 11 1
 def stList : St := St.init (demoRoot (demoMid []) [] [leafSt 1 1, leafSt 2 2] [])
 def stMid : St := St.init (demoRoot (demoMid [rowV 1 100]) [] [] [])
 
-/-- F-C16-1 end to end: readers of item 11's and item 13's label; after `push 13` a write to item
-13's label wakes both -/
-theorem C16_segment_collision_machine_witness :
+/-- F-C16-1 (repaired) end to end: readers of item 11's and item 13's label; after `push 13` a write to
+item 13's label wakes the reader of item 13 only (before fix-c16-1 it woke both) -/
+theorem C16_segment_collision_machine_regression :
     (runOps stRows [.reader [.kfld 4, .key 11, .fld 1] false false,
                     .reader [.kfld 4, .key 13, .fld 1] false false,
                     .idle,
                     .kpush [.kfld 4] (rowV 13 1300),
                     .idle,
-                    .set [.kfld 4, .key 13, .fld 1] (.leaf 7)]).ready = [0, 1] ∧
+                    .set [.kfld 4, .key 13, .fld 1] (.leaf 7)]).ready = [1] ∧
     related [.kfld 4, .key 13, .fld 1] [.kfld 4, .key 11, .fld 1] = false := by decide
 
-/-- … and no collision when the collection starts empty (same pushes) -/
-example :
-    (runOps (St.init (demoRoot (demoMid []) [] [] []))
-      [.reader [.kfld 4, .key 11, .fld 1] false false,
-       .reader [.kfld 4, .key 13, .fld 1] false false,
-       .kpush [.kfld 4] (rowV 10 1), .kpush [.kfld 4] (rowV 11 2), .kpush [.kfld 4] (rowV 12 3),
-       .kpush [.kfld 4] (rowV 13 4),
-       .idle,
-       .set [.kfld 4, .key 13, .fld 1] (.leaf 7)]).ready = [1] := by decide
-
-/-- F-C16-2: a write through `list[1]` notifies `this(list)`, which the reader of `list[0].v` tracks -/
+/-- F-C16-2 (repaired): a write through `list[1]` used to notify `this(list)`, which the reader of
+`list[0].v` tracks; now it notifies exactly `notifySet` of its own path -/
 theorem C16_index_write_wakes_cousin_witness :
-    T [3] ∈ (walk stList [.fld 3, .idx 1]).2.tr ∧
-    T [3] ∈ (walk stList [.fld 3, .idx 0, .fld 0]).2.trackList ∧
-    related [.fld 3, .idx 1] [.fld 3, .idx 0, .fld 0] = false := by decide
+    T [3] ∈ (walkOld stList [.fld 3, .idx 1]).2.tr ∧
+    T [3] ∈ (walkOld stList [.fld 3, .idx 0, .fld 0]).2.trackListOld ∧
+    related [.fld 3, .idx 1] [.fld 3, .idx 0, .fld 0] = false ∧
+    (walk stList [.fld 3, .idx 1]).2.tr = notifySet [3, 1] ∧
+    (∀ t ∈ (walk stList [.fld 3, .idx 1]).2.tr, t ∉ (walk stList [.fld 3, .idx 0, .fld 0]).2.trackList) := by
+  decide
 
-/-- F-C16-3: a reader of the keyed field `mid.rows` shares no trigger with a write of the root store -/
+/-- F-C16-3 (repaired): a reader of the keyed field `mid.rows` used to share no trigger with a write of
+the root store; now it tracks `this` of the root -/
 theorem C16_keyed_field_misses_root_witness :
-    (∀ t ∈ rootWriteNotify, t ∉ (walk stMid [.fld 1, .kfld 2]).2.trackList) ∧
-    related [] [.fld 1, .kfld 2] = true := by decide
+    (∀ t ∈ rootWriteNotify, t ∉ (walkOld stMid [.fld 1, .kfld 2]).2.trackListOld) ∧
+    related [] [.fld 1, .kfld 2] = true ∧
+    T [] ∈ rootWriteNotify ∧ T [] ∈ (walk stMid [.fld 1, .kfld 2]).2.trackList := by decide
 
-/-- F-C16-3: a reader of `rows@11` shares no trigger with a write through `rows` -/
+/-- F-C16-3 (repaired): a reader of `rows@11` used to share no trigger with a write through `rows` -/
 theorem C16_at_keyed_misses_parent_witness :
-    (∀ t ∈ (walk stRows [.kfld 4]).2.tr ++ [T [4], C [4]], t ∉ (walk stRows [.kfld 4, .key 11]).2.trackList) ∧
-    related [.kfld 4] [.kfld 4, .key 11] = true := by decide
+    (∀ t ∈ (walkOld stRows [.kfld 4]).2.tr ++ [T [4], C [4]],
+        t ∉ (walkOld stRows [.kfld 4, .key 11]).2.trackListOld) ∧
+    related [.kfld 4] [.kfld 4, .key 11] = true ∧
+    T [4] ∈ (walk stRows [.kfld 4]).2.tr ∧ T [4] ∈ (walk stRows [.kfld 4, .key 11]).2.trackList := by decide
 
-/-- F-C16-3: a reader of `list[0]` shares no trigger with a write through `list` -/
+/-- F-C16-3 (repaired): a reader of `list[0]` used to share no trigger with a write through `list` -/
 theorem C16_at_index_misses_parent_witness :
-    (∀ t ∈ (walk stList [.fld 3]).2.tr, t ∉ (walk stList [.fld 3, .idx 0]).2.trackList) ∧
-    related [.fld 3] [.fld 3, .idx 0] = true := by decide
+    (∀ t ∈ (walkOld stList [.fld 3]).2.tr, t ∉ (walkOld stList [.fld 3, .idx 0]).2.trackListOld) ∧
+    related [.fld 3] [.fld 3, .idx 0] = true ∧
+    T [3] ∈ (walk stList [.fld 3]).2.tr ∧ T [3] ∈ (walk stList [.fld 3, .idx 0]).2.trackList := by decide
 
 /-- F-C16-4: after `reverse`, key 12 sits at index 0 with segment 2; patching its label notifies path
 `[rows, 0, label]`, the triggers of key 10 -/
@@ -1422,12 +1624,12 @@ theorem C16_stale_keys_panic_witness :
                     .set [] (demoRoot (demoMid []) [] [] [rowV 10 1000, rowV 11 1100]),
                     .idle]).panicked = true := by decide
 
-/-- F-C16-6: keyed store built by pushing 10, 11, 12; reader of `rows@11.label`; remove key 11; push 14
-(reuses segment 1); a write to `rows@14.sub.v` wakes the reader of the removed key 11 -/
+/-- F-C16-6: keyed store `[10,11,12]`; reader of `rows@11.label`; remove key 11 (segment 1 is freed, the
+reader's path collapses to `rows ++ [1]`); push 14 (reuses segment 1); a write to `rows@14.sub.v` wakes
+the reader of the removed key 11 -/
 theorem C16_removed_key_reader_not_dropped_witness :
-    let st := runOps (St.init (demoRoot (demoMid []) [] [] []))
+    let st := runOps stRows
       [.reader [.kfld 4, .key 11, .fld 1] false false,
-       .kpush [.kfld 4] (rowV 10 1000), .kpush [.kfld 4] (rowV 11 1100), .kpush [.kfld 4] (rowV 12 1200),
        .idle, .kremove [.kfld 4] 1, .idle, .kpush [.kfld 4] (rowV 14 1400), .idle,
        .set [.kfld 4, .key 14, .fld 2, .fld 0] (.leaf 5)]
     st.ready = [0] ∧ (logicalGet st.val [.kfld 4, .key 11, .fld 1] matches .none) ∧
@@ -1447,29 +1649,35 @@ theorem C16_subscription_order_below_written_field :
 
 instance (st : St) : Decidable (NoImm st) := by unfold NoImm; infer_instance
 
-/-- `C16_keys_stable_partial` / `C16_keys_stable_of_wf`: tables started from ≤ 1 key are well-formed and
-reach states with many keys; a table started from two keys is **not** well-formed -/
-example : ([] : List Nat).length ≤ 1 ∧
-    Reach [] ((FieldKeys.new []).updateEntries [(10, 0), (11, 1), (12, 2)]) ∧
-    ((FieldKeys.new []).updateEntries [(10, 0), (11, 1), (12, 2)]).segs = [1, 2, 3] :=
-  ⟨by decide, Reach.upd _ Reach.init, by decide⟩
-example : (FieldKeys.new [7]).wf ∧ ¬ (FieldKeys.new [10, 11]).wf := by decide
-example : [10, 11, 12].Nodup ∧ 2 ≤ [10, 11, 12].length := by decide
+/-- `C16_keys_stable`: a history from a table created from three keys; `C16_keys_stable_of_wf`: its
+hypothesis holds for new tables and fails for the tables the old `new` made from two keys -/
+example : Reach (FieldKeys.new [10, 11, 12]) ((FieldKeys.new [10, 11, 12]).updateEntries [(10, 0), (12, 1), (13, 2)]) ∧
+    ((FieldKeys.new [10, 11, 12]).updateEntries [(10, 0), (12, 1), (13, 2)]).segs = [0, 2, 1] :=
+  ⟨Reach.upd _ Reach.init, by decide⟩
+example : (FieldKeys.new [10, 11]).wf ∧ (FieldKeys.newOld [7]).wf ∧ ¬ (FieldKeys.newOld [10, 11]).wf := by decide
+example : [10, 11, 12].Nodup ∧ 2 ≤ [10, 11, 12].length ∧ [7].length ≤ 1 := by decide
 
 /-- `C16_wake_order_partial` -/
 example : [1] <+: [1, 1] ∧ [1] <+: [1, 1, 0] ∧ ([1] : Path) ≠ [1, 1, 0] := by decide
 
 /-- `C16_write_wakes_iff_related`, `C16_sees_written_value`, `C16_run_subscribes`: a state reached by
-registering two readers and running them satisfies every hypothesis -/
+registering readers (of a struct field, of an indexed element's field, of a keyed field) and running
+them satisfies every hypothesis -/
 def stDemo : St :=
-  runOps (St.init (demoRoot (demoMid []) [] [] []))
-    [.reader (fldChain [1, 1, 0]) false false, .reader (fldChain [0]) false false, .idle]
+  runOps (St.init (demoRoot (demoMid [rowV 1 100]) [] [leafSt 1 1, leafSt 2 2] []))
+    [.reader [.fld 1, .fld 1, .fld 0] false false, .reader [.fld 3, .idx 0, .fld 0] false false,
+     .reader [.fld 1, .kfld 2] false false, .idle]
 
-example : NoImm stDemo ∧ (stDemo.val.get [1, 1]).isSome = true ∧
-    (stDemo.effs[0]?.map (·.chain)) = some (fldChain [1, 1, 0]) ∧
-    (stDemo.effs[0]?.map (·.iter)) = some false := by decide
+example : NoImm stDemo ∧ (stDemo.val.get (chainPath [.fld 3, .idx 1])).isSome = true ∧
+    (∀ a ∈ [Acc.fld 3, Acc.idx 1], a.isFldIdx = true) ∧
+    (stDemo.effs[2]?.map (·.chain)) = some [.fld 1, .kfld 2] ∧
+    (∀ a ∈ [Acc.fld 1, Acc.kfld 2], a.isPlain = true) ∧
+    (stDemo.effs[2]?.map (·.iter)) = some false := by decide
 
-/-- and on it the theorem's conclusion can be observed: writing `mid.inner` wakes reader 0 only -/
-example : (stepOp stDemo (.set (fldChain [1, 1]) (leafSt 7 8))).1.ready = [0] := by decide
+/-- and on it the conclusions can be observed: writing `list[1]` wakes nobody (reader 1 reads `list[0].v`),
+writing `list[0]` wakes reader 1, writing the root wakes all three (the keyed field's reader included) -/
+example : (stepOp stDemo (.set [.fld 3, .idx 1] (leafSt 7 8))).1.ready = [] ∧
+    (stepOp stDemo (.set [.fld 3, .idx 0] (leafSt 7 8))).1.ready = [1] ∧
+    (stepOp stDemo (.set [] (demoRoot (demoMid []) [] [] []))).1.ready = [0, 1, 2] := by decide
 
 end Leptos.Store
